@@ -7,36 +7,39 @@ from .. import formula as F
 from ..common import std_candidates, feature_labels, fmt_vals
 from ..dense import check_shape
 from ..formula import Profile, from_json
-from ..monitors import run_dt_off, run_ct_off
+from ..monitors import run_dt_off, run_ct_off, run_dt_on, run_ct_on
 from ..refsem import same, step_at, needs_tolerance
 from ..runner import Lane, PASS, FAIL, DISCARD
 
 PROPERTY = 'C19'
 
 RULE = ('Formulas of the C19 fragment (arithmetic, comparisons, Boolean, once/historically bounded or not, bounded eventually/always), '
-        'sampling period P in {1, 0.5, 2} s, bounds multiples of P, step signals that change only at multiples of P (one sample per '
+        'sampling period P in {1, 0.5, 2, 0.25, 4, 3} s, bounds multiples of P, step signals that change only at multiples of P (one sample per '
         'period for the discrete monitor; for the dense monitor either the same samples or the sparser list with repeated values removed). '
         'Oracle (differential between the two interpretations): dense offline result read at k*P == discrete offline result at sample k '
-        'for every k with k + h < n (h = horizon in samples). Non-trivial = >= 1 bounded operator, n > h + 1 and the compared values are '
-        'not all equal; distinct = distinct (formula, data, P, sparsity) digests.')
+        'for every k with k + h < n (h = horizon in samples). Lane wide: windows of up to 12 periods on traces of up to h + 24 samples made of '
+        'long monotone runs with a few breaks, ties and plateaus. Lane units: the default unit is s, ms or us, the period is 1, 1/2 or 2 default units (written in any unit), the bounds '
+        'are spelled with explicit units or bare (machinery of C08) and the time stamps are in the default unit. Lane online: past fragment, or bounded-future fragment after pastify() on both '
+        'sides; the dense-time online monitor (fed everything at once, one sample per update, or in random pieces) read at k*P wherever its output '
+        'covers == the k-th update of the discrete-time online monitor (from update h on after pastify). Non-trivial = >= 1 bounded operator, '
+        'n > h + 1 and the compared values are not all equal; distinct = distinct (formula, data, P, sparsity / unit / schedule) digests.')
 
 ASSUMPTIONS = [
     'the dense result is read as a right-continuous step function',
     'a case in which either monitor raises is discarded (C17)',
     'values compared exactly; relative tolerance 1e-9 when / sqrt exp ln log pow occur',
+    'online lane: the dense-time online output covers the interval between its first and last time stamp (as in C05)',
 ]
 
 FRAG = Profile(events=(), un_temp=('once', 'historically'), bin_temp=(), tun=F.TUN_PAST + F.TUN_FUT, tbin=(), max_depth=4, max_bound=4)
-PERIODS = [(Fraction(1), (1, 's')), (Fraction(1, 2), (500, 'ms')), (Fraction(2), (2, 's'))]
+FRAG_PAST = FRAG.copy(tun=F.TUN_PAST)
+PERIODS = [(Fraction(1), (1, 's')), (Fraction(1, 2), (500, 'ms')), (Fraction(2), (2, 's')),
+           (Fraction(1, 4), (250, 'ms')), (Fraction(4), (4, 's')), (Fraction(3), (3000, 'ms'))]
 
 
 @st.composite
-def cases(draw, tier):
-    p = FRAG if tier == 'quick' else FRAG.copy(max_depth=5, max_bound=6)
-    f, vs = draw(F.formulas(p))
-    h = F.horizon(f) or 0
-    n = h + draw(st.sampled_from([2, 2, 3, 4, 5, 6, 8]))
-    # step signals with plateaus (so that the sparse dense input differs from the dense one)
+def plateau_trace(draw, vs, n):
+    """step signals with plateaus (so that the sparse dense input differs from the full one)"""
     tr = {}
     for v in vs:
         xs = []
@@ -46,7 +49,63 @@ def cases(draw, tier):
                 cur = draw(F.values())
             xs.append(cur)
         tr[v] = xs
-    return {'formula': f, 'vars': vs, 'trace': tr, 'period': draw(st.integers(0, 2)), 'sparse': draw(st.booleans())}
+    return tr
+
+
+@st.composite
+def staircase_trace(draw, vs, n):
+    """long monotone runs with a few breaks, some plateaus and ties (sliding-window code needs several pops in a row)"""
+    tr = {}
+    for v in vs:
+        pool = draw(st.sampled_from([8, 16, 40]))
+        vals = sorted(draw(st.lists(st.integers(-pool, pool), min_size=n, max_size=n)), reverse=draw(st.booleans()))
+        for _ in range(draw(st.integers(0, 3))):
+            i = draw(st.integers(0, n - 1))
+            vals[i] = draw(st.integers(-pool, pool))
+        if draw(st.booleans()):
+            # a second run in the opposite direction
+            m = draw(st.integers(1, n))
+            vals = vals[:m] + vals[m:][::-1]
+        tr[v] = [x / 2.0 for x in vals]
+    return tr
+
+
+@st.composite
+def cases(draw, tier):
+    p = FRAG if tier == 'quick' else FRAG.copy(max_depth=5, max_bound=6)
+    f, vs = draw(F.formulas(p))
+    if draw(st.integers(0, 2)):
+        f = draw(ensure_bounded(f, max_bound=p.max_bound))
+    h = F.horizon(f) or 0
+    n = h + draw(st.sampled_from([2, 2, 3, 4, 5, 6, 8]))
+    tr = draw(plateau_trace(vs, n))
+    return {'formula': f, 'vars': vs, 'trace': tr, 'period': draw(st.integers(0, len(PERIODS) - 1)), 'sparse': draw(st.booleans())}
+
+
+@st.composite
+def ensure_bounded(draw, f, past_only=False, max_bound=4):
+    if any(s[0] == 'tun' for s in F.subterms(f)):
+        return f
+    ops = list(F.TUN_PAST) if past_only else list(F.TUN_PAST + F.TUN_FUT)
+    b = draw(st.integers(1, max_bound))
+    a = draw(st.integers(0, b))
+    return ('tun', draw(st.sampled_from(ops)), a, b, f)
+
+
+@st.composite
+def wide_cases(draw, tier):
+    p = FRAG.copy(max_depth=3, max_bound=12, nvars=2)
+    f, vs = draw(F.formulas(p))
+    f = draw(ensure_bounded(f, max_bound=12))
+    h = F.horizon(f) or 0
+    n = h + draw(st.sampled_from([2, 4, 6, 9, 12, 16, 24]))
+    tr = draw(staircase_trace(vs, n)) if draw(st.integers(0, 3)) else draw(plateau_trace(vs, n))
+    return {'formula': f, 'vars': vs, 'trace': tr, 'period': draw(st.integers(0, len(PERIODS) - 1)), 'sparse': draw(st.booleans())}
+
+
+def sparse_signal(s):
+    n = len(s)
+    return [s[0]] + [s[i] for i in range(1, n - 1) if s[i][1] != s[i - 1][1]] + ([s[-1]] if n > 1 else [])
 
 
 def check(case):
@@ -70,7 +129,7 @@ def check(case):
     for v in feed:
         s = [[tcol[i], w[v][i]] for i in range(n)]
         if case['sparse']:
-            s = [s[0]] + [s[i] for i in range(1, n - 1) if s[i][1] != s[i - 1][1]] + ([s[-1]] if n > 1 else [])
+            s = sparse_signal(s)
         sig[v] = s
     oc = run_ct_off(text, feed, sig)
     if od[0] != 'ok' or oc[0] != 'ok':
@@ -85,18 +144,20 @@ def check(case):
     desc = 'spec: %s   (P = %s s, horizon %d samples)\ndiscrete trace: %s\ndense signals: %s' % (text, P, h, w, sig)
     for k, c in zip(ks, cvals):
         if c is None or not same(c, dvals[k], tol):
-            return FAIL('interpretations-differ:' + attribute(f, feed, w, n, P, pcfg, case['sparse']),
+            return FAIL('interpretations-differ:' + attribute(f, feed, w, n, case['period'], case['sparse']),
                         desc + '\ndiscrete: %s\ndense at k*P: %s\nfirst difference at sample %d (t=%g): discrete %r, dense %r\ndense result: %r' % (
                             fmt_vals(dvals), cvals, k, tcol[k], dvals[k], c, oc[1]), labels)
     bounded = any(s[0] == 'tun' for s in F.subterms(f))
+    if F.max_bound(f) >= 5:
+        labels.append('window>=5')
     return PASS(bounded and n > h + 1 and len(set(dvals[k] for k in ks)) > 1, labels)
 
 
-def attribute(f, feed, w, n, P, pcfg, sparse):
+def attribute(f, feed, w, n, period, sparse):
     for s in sorted(set(F.subterms(f)), key=F.size):
         if s[0] in ('var', 'const') or not F.fvars(s):
             continue
-        c = {'formula': s, 'vars': feed, 'trace': w, 'period': [i for i, x in enumerate(PERIODS) if x[0] == P][0], 'sparse': sparse}
+        c = {'formula': s, 'vars': feed, 'trace': w, 'period': period, 'sparse': sparse}
         v = _plain(c)
         if v:
             return F.op_of(s)
@@ -126,6 +187,158 @@ def _plain(case):
     return False
 
 
+# ---- units lane ---------------------------------------------------------------
+
+UNIT_NS = {'s': 10 ** 9, 'ms': 10 ** 6, 'us': 10 ** 3, 'ns': 1}
+# period as a multiple of the default unit (exact binary floats in that unit)
+UNIT_PERIODS = [Fraction(1), Fraction(1, 2), Fraction(2)]
+
+
+@st.composite
+def unit_cases(draw, tier):
+    p = FRAG.copy(max_depth=3, max_bound=5)
+    f, vs = draw(F.formulas(p))
+    f = draw(ensure_bounded(f))
+    h = F.horizon(f) or 0
+    n = h + draw(st.sampled_from([2, 3, 4, 6, 8]))
+    tr = draw(plateau_trace(vs, n))
+    return {'formula': f, 'vars': vs, 'trace': tr, 'unit': draw(st.sampled_from(['s', 'ms', 'us'])),
+            'period': draw(st.integers(0, len(UNIT_PERIODS) - 1)), 'period_unit': draw(st.integers(0, 3)),
+            'choices': draw(st.lists(st.integers(0, 11), min_size=12, max_size=12)),
+            'uniform': draw(st.sampled_from([None, None, 's', 'ms', 'us', 'ns'])), 'sparse': draw(st.booleans())}
+
+
+def check_units(case):
+    from .C08 import Speller, spellings
+    f = from_json(case['formula'])
+    vs = list(case['vars'])
+    tr = {v: [float(x) for x in case['trace'][v]] for v in vs}
+    n = len(tr[vs[0]])
+    du = case['unit']
+    P = UNIT_PERIODS[case['period']]               # in default units
+    period_ns = int(P * UNIT_NS[du])
+    labels = feature_labels(f, n) + ['unit:' + du, 'P:%s' % P]
+    used = F.fvars(f)
+    if not used:
+        return DISCARD('no-variable', labels)
+    feed = [v for v in vs if v in used]
+    w = {v: tr[v] for v in feed}
+    h = F.horizon(f) or 0
+    # the sampling period written in any unit in which it is a whole number
+    alts = [(t, u) for (t, u) in spellings(1, period_ns, None) if '.' not in t]
+    pt, pu = alts[case['period_unit'] % len(alts)]
+    try:
+        text = 'out = ' + F.show(f, Speller(period_ns, du, case['choices'], case.get('uniform')))
+    except (AssertionError, TypeError, ZeroDivisionError):
+        return DISCARD('unprintable', labels)
+    tcol = [float(i * P) for i in range(n)]
+    od = run_dt_off(text, feed, w, time=tcol, unit=du, period=(int(pt), pu, 0.1))
+    sig = {}
+    for v in feed:
+        s = [[tcol[i], w[v][i]] for i in range(n)]
+        sig[v] = sparse_signal(s) if case['sparse'] else s
+    oc = run_ct_off(text, feed, sig, unit=du)
+    if od[0] != 'ok' or oc[0] != 'ok':
+        bad = od if od[0] != 'ok' else oc
+        return DISCARD('raises(C17/C08):' + bad[1], labels)
+    if check_shape(oc[1]):
+        return DISCARD('dense-shape(C04)', labels)
+    dvals = [p[1] for p in od[1]]
+    tol = needs_tolerance(f)
+    ks = [k for k in range(n) if k + h < n]
+    desc = 'spec: %s   (default unit %s, sampling period %s%s, horizon %d samples)\ndiscrete trace: %s\ntime column: %s\ndense signals: %s' % (
+        text, du, pt, pu, h, w, tcol, sig)
+    for k in ks:
+        c = step_at(oc[1], tcol[k])
+        if c is None or not same(c, dvals[k], tol):
+            return FAIL('interpretations-differ:units', desc + '\ndiscrete: %s\nfirst difference at sample %d (t=%g %s): discrete %r, dense %r\ndense result: %r' % (
+                fmt_vals(dvals), k, tcol[k], du, dvals[k], c, oc[1]), labels)
+    return PASS(n > h + 1 and len(set(dvals[k] for k in ks)) > 1 and any(u in text for u in ('s]', 's,', 's:')), labels)
+
+
+# ---- online lane --------------------------------------------------------------
+
+@st.composite
+def online_cases(draw, tier):
+    pastified = draw(st.booleans())
+    p = (FRAG if pastified else FRAG_PAST).copy(max_depth=3 if tier == 'quick' else 4, max_bound=4)
+    f, vs = draw(F.formulas(p))
+    f = draw(ensure_bounded(f, past_only=not pastified))
+    h = F.horizon(f) or 0
+    n = h + draw(st.sampled_from([2, 3, 4, 5, 6, 8]))
+    tr = draw(plateau_trace(vs, n))
+    sched = draw(st.sampled_from(['whole', 'single', 'pieces']))
+    cuts = sorted(set(draw(st.lists(st.integers(0, n - 1), min_size=1, max_size=4)))) if sched == 'pieces' else []
+    return {'formula': f, 'vars': vs, 'trace': tr, 'period': draw(st.integers(0, len(PERIODS) - 1)), 'sparse': draw(st.booleans()),
+            'pastified': pastified, 'schedule': sched, 'cuts': cuts}
+
+
+def check_online(case):
+    f = from_json(case['formula'])
+    vs = list(case['vars'])
+    tr = {v: [float(x) for x in case['trace'][v]] for v in vs}
+    n = len(tr[vs[0]])
+    P, pcfg = PERIODS[case['period']]
+    pastified = bool(case.get('pastified'))
+    labels = feature_labels(f, n) + ['P:%s' % P, 'schedule:' + case['schedule'], 'pastified' if pastified else 'past']
+    used = F.fvars(f)
+    if not used:
+        return DISCARD('no-variable', labels)
+    if F.has_future(f) and not pastified:
+        return DISCARD('future-without-pastify', labels)
+    feed = [v for v in vs if v in used]
+    w = {v: tr[v] for v in feed}
+    h = F.horizon(f) or 0
+    text = 'out = ' + F.show(f, F.make_scaled_bound_printer(P))
+    tcol = [float(i * P) for i in range(n)]
+    od = run_dt_on(text, feed, w, time=tcol, period=(pcfg[0], pcfg[1], 0.1), pastify=pastified)
+    sig = {}
+    for v in feed:
+        s = [[tcol[i], w[v][i]] for i in range(n)]
+        sig[v] = sparse_signal(s) if case['sparse'] else s
+    # schedule: cut instants common to all variables
+    if case['schedule'] == 'whole':
+        cuts = []
+    elif case['schedule'] == 'single':
+        cuts = tcol
+    else:
+        cuts = [tcol[i] for i in case['cuts'] if i < n]
+    batches = []
+    lo = -1.0
+    for hi in list(cuts) + [float('inf')]:
+        b = {v: [s for s in sig[v] if lo < s[0] <= hi] for v in feed}
+        if any(b.values()):
+            batches.append(b)
+        lo = hi
+    oc = run_ct_on(text, feed, batches, pastify=pastified)
+    if od[0] != 'ok' or oc[0] != 'ok':
+        bad = od if od[0] != 'ok' else oc
+        return DISCARD('raises(C17):' + bad[1], labels)
+    out = []
+    for o in oc[1]:
+        if isinstance(o, list):
+            out.extend(o)
+    if check_shape(out):
+        return DISCARD('dense-shape(C05)', labels)
+    if not out:
+        return PASS(False, labels + ['empty-output'])
+    first, last = out[0][0], out[-1][0]
+    tol = needs_tolerance(f)
+    desc = 'spec: %s   (P = %s s, horizon %d samples%s)\ndiscrete trace: %s\ndense batches: %s' % (
+        text, P, h, ', both monitors pastified' if pastified else '', w, batches)
+    ks = [k for k in range(h if pastified else 0, n) if first <= tcol[k] <= last]
+    for k in ks:
+        c = step_at(out, tcol[k])
+        if c is None or not same(c, od[1][k], tol):
+            return FAIL('online-interpretations-differ:' + ('pastified' if pastified else 'past'),
+                        desc + '\ndiscrete online: %s\nfirst difference at update %d (t=%g): discrete %r, dense %r\ndense output (concatenated): %r' % (
+                            fmt_vals(od[1]), k, tcol[k], od[1][k], c, out), labels)
+    return PASS(len(ks) >= 2 and len(set(od[1][k] for k in ks)) > 1, labels)
+
+
 LANES = [
     Lane('main', lambda tier: cases(tier), check, 5000, 80000, std_candidates),
+    Lane('wide', lambda tier: wide_cases(tier), check, 1500, 20000, std_candidates),
+    Lane('units', lambda tier: unit_cases(tier), check_units, 1500, 20000, std_candidates),
+    Lane('online', lambda tier: online_cases(tier), check_online, 2500, 30000, std_candidates),
 ]
